@@ -42,7 +42,7 @@ func genWrite(r *kit.Rng, k keySpec, at int64, tier string, allowBig bool) *writ
 	w.Chunking = kit.Pick(r, []string{"full", "full", "irregular", "small", "one"})
 	if allowBig && r.Chance(1, 2) {
 		w.Size = kit.Pick(r, bigSizes)
-		w.Chunking = kit.Pick(r, []string{"full", "full", "irregular"})
+		w.Chunking = kit.Pick(r, []string{"full", "irregular", "odd", "odd"})
 	}
 	if (w.Chunking == "small" || w.Chunking == "one") && w.Size > 2000 {
 		w.Size = kit.Pick(r, []int{255, 256, 257, 258, 300, 513, 700, 1025})
@@ -141,7 +141,7 @@ func Generate(seed uint64, n int, tier string, corpusDir string, out *kit.Out) e
 			scs = append(scs, &sc)
 		}
 	}
-	bigEvery := 25
+	bigEvery := 12
 	if tier == "thorough" {
 		bigEvery = 6
 	}
